@@ -855,6 +855,12 @@ func nttConjugateInvariantLazyUnrolled16(p1, p2 []uint64, N int, Q, MRedConstant
 		t >>= 1
 		h = m >> 1
 
+		// The last stage always applies the correction (as in nttUnrolled16Lazy),
+		// else the output can reach 8*Q-2 instead of the documented 6*Q-2.
+		if t == 1 {
+			reduce = true
+		}
+
 		if t >= 8 {
 
 			for i, j1, j2 := 0, 0, t; i < h; i, j1, j2 = i+1, j1+2*t, j2+2*t {
